@@ -44,9 +44,17 @@ def run_double(P1, P2, V1, V2, l1, l2):
     p1, p2 = E.profile_of(P1), E.profile_of(P2)
     sim = rule.get_simulated_cardinal_profiles(p1, p2, e1, e2)
     c = [int(e1.elicitation_count), int(e2.elicitation_count)]
+    n1 = [len(logs[0]), len(logs[1])]
+    # the same elicitor objects serve a second run with other parameters (a lambda sweep): the counter keeps counting the questions
+    # actually forwarded, over both runs
+    n_ = len(P1)
+    rule2 = DoubleLambdaTSF(max(1, (l1 % n_) + 1 if n_ > 1 else 1), max(1, (l2 % n_) + 1 if n_ > 1 else 1), zero_indexed=True)
+    rule2.get_simulated_cardinal_profiles(p1, p2, e1, e2)
+    c_after = [int(e1.elicitation_count), int(e2.elicitation_count)]
+    fwd_after = [len(logs[0]), len(logs[1])]
     out = rule.scf(p1, p2, mk(V1, []), mk(V2, []))
     return {"sim": [[[int(x) for x in row] for row in s] for s in sim], "out": sorted([int(a), int(b)] for a, b in out),
-            "log": [[list(q) for q in l] for l in logs], "count": c}
+            "log": [[list(q) for q in l[:n1[k_]]] for k_, l in enumerate(logs)], "count": c, "count_after_second_run": c_after, "forwarded_after_second_run": fwd_after}
 
 
 @guard
@@ -196,6 +204,11 @@ def judge(R, it, res, lean):
             if a["count"][side] != len(a["log"][side]) or len(set(map(tuple, a["log"][side]))) != len(a["log"][side]):
                 R.violation("property_violation", "two-sided rule: memoising elicitor never forwards twice, counter = forwarded", ENTRY, d,
                             impl_output=a["log"][side], oracle="duplicate/counter", config={"rule": "dtsf"})
+                return
+            if "count_after_second_run" in a and a["count_after_second_run"][side] != a["forwarded_after_second_run"][side]:
+                R.violation("property_violation", "two-sided rule: the elicitor's counter is the number of questions forwarded, also when the elicitor serves a second run",
+                            ENTRY, d, impl_output={"counter": a["count_after_second_run"][side], "forwarded": a["forwarded_after_second_run"][side]},
+                            oracle="counter != number of forwarded questions after two runs on the same elicitor", config={"rule": "dtsf", "side": side + 1})
                 return
             for i in range(nn):
                 if len(per[i]) > 1 + lam * clog2(nn):
